@@ -106,6 +106,39 @@ def run(rep):
         except Undecided:
             return False
 
+    TOL = -1e-6
+
+    def value_region_test(c, P):
+        """a comparison of an end value with a constant that is not one of the five predicates: decided from the region the assignment
+        puts the value in (NaN: every ordering false; negative: below the tolerance; otherwise: at or above it), None when both outcomes
+        are possible inside the region, NotImplemented when the test is not of this kind"""
+        if c[0] != 'cmp' or c[1] not in ('<', '<=', '>', '>='):
+            return NotImplemented
+        op, a, b = c[1], c[2], c[3]
+        which = None
+        for nm, var in (("1", V1), ("2", V2)):
+            if cq.same_expr(a, var) and _const(b):
+                which, k = nm, float(Canon().ratio(b).cval())
+            elif cq.same_expr(b, var) and _const(a):
+                which, k = nm, float(Canon().ratio(a).cval())
+                op = {'<': '>', '<=': '>=', '>': '<', '>=': '<='}[op]
+        if which is None:
+            return NotImplemented
+        # now: value op k
+        if P["NAN" + which]:
+            return False
+        if P["NEG" + which]:                 # value < tolerance (some constant in [-1e-6, 0])
+            if op in ('<', '<=') and k >= 0:
+                return True
+            if op in ('>', '>=') and k >= 0:
+                return False
+            return None
+        if op in ('>', '>=') and k < TOL:    # value >= tolerance
+            return True
+        if op in ('<', '<=') and k < TOL:
+            return False
+        return None
+
     def mk_oracle(P, A=None, B=None, R=None, pos=True):
         def oracle(c):
             if c[0] in ('and', 'or', 'not'):
@@ -148,6 +181,9 @@ def run(rep):
                 return False               # not at the end of the data
             if "display" in s_:
                 return False
+            vr = value_region_test(c, P)
+            if vr is not NotImplemented:
+                return vr
             if c[1] == '>' and _const(c[3]) and "IT" not in s_ and pos is not None:
                 # clipped length > eps
                 return pos
@@ -155,7 +191,7 @@ def run(rep):
         return oracle
     # ---- validity: flag set iff one of the five predicates holds
     import itertools
-    badv, nv = [], 0
+    badv, undv, nv = [], [], 0
     for NEG1, NEG2, GAP, NAN1, NAN2 in itertools.product([False, True], repeat=5):
         if (NEG1 and NAN1) or (NEG2 and NAN2):
             continue
@@ -169,17 +205,61 @@ def run(rep):
             rep.undecided("R14.b", file, "c_var2h", f"validity test {P}", str(ex), line=wl.get("_line"))
             continue
         ends = [f_ for f_ in ce.finals if f_[2] == "end"]
-        und = [f_ for f_ in ends if f_[1]]
-        if und or not ends:
-            badv.append(f"{P}: undecided test {show(und[0][1][0][0])[:80] if und else 'no path'}")
+        if not ends:
+            badv.append(f"{P}: no path")
             continue
         want = any(P.values())
-        got = ends[-1][0].get(MISS)
-        ok = (cq.same_expr(got, "1") if want else cq.same_expr(got, "M0")) if got is not None else False
-        if not ok:
-            badv.append(f"{ {k_ for k_, v in P.items() if v} or '{}' }: flag {show(got) if got else None}, expected {'1' if want else 'unchanged'}")
-    rep.check(not badv, "R14.b", file, "c_var2h", f"interval invalid iff an end value is negative (beyond a tolerance in [-1e-6, 0]) or missing or the interval is longer than maxgapsec ({nv} predicate assignments)",
-              " | ".join(badv[:3]), line=wl.get("_line"))
+        for env_, unres, _how in ends:
+            got = env_.get(MISS)
+            ok = (cq.same_expr(got, "1") if want else cq.same_expr(got, "M0")) if got is not None else False
+            if ok:
+                continue
+            tag = f"{ {k_ for k_, v in P.items() if v} or '{}' }"
+            if not unres:
+                badv.append(f"{tag}: flag {show(got) if got else None}, expected {'1' if want else 'unchanged'}")
+                continue
+            # the flag depends on a further test: a refutation when that test is a single comparison per end value (both outcomes are
+            # possible inside the value's region), otherwise undecided
+            orc = mk_oracle(P, A=False, B=False, R=True)
+            leaves = []
+
+            def collect(c_):
+                if c_[0] in ('and', 'or', 'not'):
+                    for x_ in c_[1:]:
+                        collect(x_)
+                elif orc(c_) is None and c_ not in leaves:
+                    leaves.append(c_)
+            for c_, _t in unres:
+                collect(c_)
+            per = {}
+            for c_ in leaves:
+                if value_region_test(c_, P) is None:
+                    per.setdefault(V1 if any(cq.same_expr(x_, V1) for x_ in (c_[2], c_[3])) else V2, set()).add(show(c_))
+            witness = None
+            if leaves and all(value_region_test(c_, P) is None for c_ in leaves) and all(len(v_) == 1 for v_ in per.values()):
+                from .c03 import _bool
+                for vals in itertools.product([False, True], repeat=len(leaves)):
+                    asg = dict(zip(leaves, vals))
+
+                    def orc2(c_, asg=asg):
+                        if c_ in asg:
+                            return asg[c_]
+                        if c_[0] in ('and', 'or', 'not'):
+                            return _bool(c_, orc2)
+                        return orc(c_)
+                    if all(orc2(c_) is t_ for c_, t_ in unres):
+                        witness = asg
+                        break
+            if witness is not None:
+                badv.append(f"{tag} and {' , '.join(show(c_) + ' is ' + str(t_) for c_, t_ in witness.items())}: flag {show(got) if got else None}, expected {'1' if want else 'unchanged'} "
+                            "(the validity of the interval depends on a test outside the five predicates)")
+            else:
+                undv.append(f"{tag}: undecided test {show(unres[0][0])[:80]}")
+    cons_v = f"interval invalid iff an end value is negative (beyond a tolerance in [-1e-6, 0]) or missing or the interval is longer than maxgapsec ({nv} predicate assignments)"
+    if undv and not badv:
+        rep.undecided("R14.b", file, "c_var2h", cons_v, " | ".join(undv[:3]), line=wl.get("_line"))
+    else:
+        rep.check(not badv, "R14.b", file, "c_var2h", cons_v, " | ".join(badv[:3]), line=wl.get("_line"))
     rep.floor("validity assignments", nv, 18)
     # ---- contribution: both modes x position of the interval ends relative to the period
     P0 = {"NEG1": False, "NEG2": False, "GAP": False, "NAN1": False, "NAN2": False}
